@@ -139,11 +139,15 @@ Definition assert_app (c : cmd) : bool :=
   && verify_positionals c
   && negb (is_set s_multicall c && is_set s_no_binary_name c).
 
-(** validity of the whole tree = every node, once built, passes [assert_app]
+(** validity of the whole tree = every node, once built the way the parser builds it when it
+    descends ([_build_subcommand]: bin/display names, then [_build_self]), passes [assert_app]
     (what [Command::build] checks in a debug build) *)
-Fixpoint valid_tree (fuel : nat) (c : cmd) : bool :=
+Fixpoint valid_tree (fuel : nat) (c : cmd) : bool :=      (* [c] is built *)
   match fuel with
   | O => false
-  | S f => let c := build_self c in assert_app c && forallb (valid_tree f) (c_subs c)
+  | S f => assert_app c
+           && forallb (fun s => match build_subcommand c (c_name s) with
+                                | Some sc => valid_tree f sc
+                                | None => false end) (c_subs c)
   end.
-Definition valid (c : cmd) : bool := valid_tree (S (S (depth c))) c.
+Definition valid (c : cmd) : bool := valid_tree (S (S (depth c))) (build_self c).
